@@ -229,7 +229,13 @@ def skeleton_of(node: ast.FunctionDef) -> str:
 
     def visit(stmts, depth):
         for s in stmts:
-            out.append(f"{depth}:{stmt_pattern(s) or type(s).__name__}")
+            pat = stmt_pattern(s) or type(s).__name__
+            if isinstance(s, (ast.Assign, ast.AnnAssign, ast.AugAssign)):
+                t = s.targets[0] if isinstance(s, ast.Assign) else s.target
+                while isinstance(t, ast.Subscript):       # an element store: the array matters, not the index expression
+                    t = t.value
+                    pat = "assign " + unparse(t) + "[]"
+            out.append(f"{depth}:{pat}")
             for fld in ("body", "orelse", "finalbody"):
                 b = getattr(s, fld, None)
                 if isinstance(b, list) and b and isinstance(b[0], ast.stmt) and not isinstance(s, (ast.FunctionDef, ast.ClassDef)):
